@@ -424,3 +424,140 @@ func describeRoots(p *Prog, v ssa.Value) string {
 	}
 	return strings.Join(names, ", ")
 }
+
+// ---------------------------------------------------------------- VF-20
+
+func init() {
+	register(&Rule{ID: "VF-20", Title: "truncation counters: the partial-segment term is the distance between the new bound and the bound it replaces",
+		Props: []string{"C20"}, Floor: 2, Run: runVF20})
+}
+
+func runVF20(p *Prog, r *RuleRun) {
+	v := newWalVocab(p)
+	if !checkWalAnchors(r, v, nil) {
+		return
+	}
+	minF := p.Field("types", "SegmentInfo", "MinIndex")
+	maxF := p.Field("types", "SegmentInfo", "MaxIndex")
+	lastFn := p.Func("", "state.lastIndex")
+	n := 0
+	for _, fn := range p.Funcs {
+		if pkgRelOf(p, fn) != "" || !v.isTxnSig(fn.Signature) {
+			continue
+		}
+		// the counter argument of the truncation metric in this transaction
+		var counterArg ssa.Value
+		metric := ""
+		for _, b := range fn.Blocks {
+			for _, ins := range b.Instrs {
+				if ci, ok := ins.(ssa.CallInstruction); ok && eventName(ci) == "metrics.Collector.IncrementCounter" {
+					if s, ok := constStringOf(ci.Common().Args[0]); ok && strings.HasSuffix(s, "_truncations") {
+						counterArg, metric = ci.Common().Args[1], s
+					}
+				}
+			}
+		}
+		if counterArg == nil {
+			continue
+		}
+		// SUB terms feeding the counter
+		var subs []*ssa.BinOp
+		seen := map[ssa.Value]bool{}
+		var walk func(x ssa.Value)
+		walk = func(x ssa.Value) {
+			if x == nil || seen[x] {
+				return
+			}
+			seen[x] = true
+			switch y := x.(type) {
+			case *ssa.Phi:
+				for _, e := range y.Edges {
+					walk(e)
+				}
+			case *ssa.BinOp:
+				if y.Op == token.SUB {
+					subs = append(subs, y)
+					return
+				}
+				walk(y.X)
+				walk(y.Y)
+			case *ssa.Convert:
+				walk(y.X)
+			}
+		}
+		walk(counterArg)
+		// bound updates in this transaction
+		for _, b := range fn.Blocks {
+			for _, ins := range b.Instrs {
+				st, ok := ins.(*ssa.Store)
+				if !ok {
+					continue
+				}
+				fv := fieldOfAddr(st.Addr)
+				if fv != minF && fv != maxF {
+					continue
+				}
+				for _, sub := range subs {
+					switch {
+					case fv == minF && sameExpr(sub.X, st.Val, 0):
+						// head: removed = newMin - old MinIndex of the very segment being updated
+						n++
+						okY := loadedField(sub.Y) == minF
+						r.Check(okY, funcDisplay(fn)+":"+metric+":partial-head-term", posOf(p, sub), "entries removed from the new head = newMin - its previous MinIndex",
+							"the "+metric+" counter adds newMin minus "+describeOperand(sub.Y)+" for the partially truncated head segment; the entries actually removed are newMin minus the segment's previous MinIndex (BaseIndex never moves, so a second truncation inside the same segment counts the first one again)")
+					case fv == maxF && sameExpr(sub.Y, st.Val, 0):
+						// tail: removed = old last index (MaxIndex, or lastIndex() for the unsealed tail) - newMax
+						n++
+						okX := derivesOnlyFrom(sub.X, func(x ssa.Value) bool {
+							if loadedField(x) == maxF {
+								return true
+							}
+							c, ok := x.(*ssa.Call)
+							return ok && c.Call.StaticCallee() == lastFn
+						})
+						r.Check(okX, funcDisplay(fn)+":"+metric+":partial-tail-term", posOf(p, sub), "entries removed from the new tail end = its previous last index (MaxIndex / lastIndex()) - newMax",
+							"the "+metric+" counter's term for the partially truncated segment is "+describeOperand(sub.X)+" minus newMax; it must be the segment's previous last index minus newMax")
+					}
+				}
+			}
+		}
+	}
+	if n < 2 {
+		r.Unknown("terms", "?", fmt.Sprintf("only %d partial-segment counter terms found in truncation transactions", n))
+	}
+}
+
+func describeOperand(v ssa.Value) string {
+	if n := fieldLoadName(v); n != "" {
+		return "field " + n
+	}
+	return strings.TrimSpace(v.String())
+}
+
+// derivesOnlyFrom: v is a phi/convert tree whose leaves all satisfy leaf.
+func derivesOnlyFrom(v ssa.Value, leaf func(ssa.Value) bool) bool {
+	seen := map[ssa.Value]bool{}
+	var walk func(x ssa.Value) bool
+	walk = func(x ssa.Value) bool {
+		if seen[x] {
+			return true
+		}
+		seen[x] = true
+		if leaf(x) {
+			return true
+		}
+		switch y := x.(type) {
+		case *ssa.Phi:
+			for _, e := range y.Edges {
+				if !walk(e) {
+					return false
+				}
+			}
+			return true
+		case *ssa.Convert:
+			return walk(y.X)
+		}
+		return false
+	}
+	return walk(v)
+}
